@@ -230,6 +230,7 @@ pub struct Stats {
     pub enumerated: u64,
     /// survey mode (VCHECK_SURVEY=1): failures by signature, with one example each; nothing is reported as a violation
     pub survey: BTreeMap<String, (u64, String)>,
+    pub fallback_samples: Vec<serde_json::Value>,
 }
 
 impl Stats {
@@ -246,6 +247,9 @@ impl Stats {
             if self.samples.len() < 8 {
                 self.samples.push(s);
             }
+        }
+        if self.fallback_samples.is_empty() {
+            self.fallback_samples = other.fallback_samples;
         }
         for (k, v) in other.known_hits {
             *self.known_hits.entry(k).or_insert(0) += v;
@@ -446,6 +450,11 @@ fn record<C: Serialize>(stats: &mut Stats, case: &C, obs: &Obs) {
             if let Ok(v) = serde_json::to_value(case) {
                 stats.samples.push(v);
             }
+        }
+    } else if stats.fallback_samples.is_empty() {
+        // shown only if the run ends without a single non-trivial case
+        if let Ok(v) = serde_json::to_value(case) {
+            stats.fallback_samples.push(v);
         }
     }
 }
@@ -757,7 +766,7 @@ fn write_evidence<P: Property>(prop: &P, tier: Tier, seed: u64, total: &Stats, r
         "evaluations": total.evaluations,
         "distinct_nontrivial": total.nontrivial.len(),
         "rule": prop.rule(),
-        "samples": total.samples,
+        "samples": if total.samples.is_empty() { &total.fallback_samples } else { &total.samples },
         "inner_evaluations": total.inner,
         "labels": labels,
         "excluded_by_construction": total.excluded,
@@ -779,9 +788,12 @@ fn write_evidence<P: Property>(prop: &P, tier: Tier, seed: u64, total: &Stats, r
         "wall_s": (wall * 100.0).round() / 100.0,
         "violations": violations,
     });
-    let dir = Path::new(VERIF_DIR).join("evidence");
+    let (dir, name) = match std::env::var("VCHECK_PART") {
+        Ok(part) => (Path::new(VERIF_DIR).join("out/parts"), format!("{}-{}.json", id, part)),
+        Err(_) => (Path::new(VERIF_DIR).join("evidence"), format!("{}.json", id)),
+    };
     let _ = std::fs::create_dir_all(&dir);
-    let path = dir.join(format!("{}.json", id));
+    let path = dir.join(name);
     if let Err(e) = std::fs::write(&path, serde_json::to_string_pretty(&doc).unwrap()) {
         eprintln!("cannot write {}: {}", path.display(), e);
     }
@@ -937,4 +949,67 @@ pub fn supervise(id: &str, args: &[String], tier: Tier) -> i32 {
     }
     let _ = std::fs::remove_dir_all(&scratch);
     verdict
+}
+
+/// Merges the per-part evidence files (out/parts/<id>-*.json) of a multi-process run into evidence/<id>.json.
+pub fn merge_parts(id: &str, tier: Tier, wall: f64, violated: bool) {
+    let dir = Path::new(VERIF_DIR).join("out/parts");
+    let mut evaluations = 0u64;
+    let mut nontrivial = 0u64;
+    let mut inner = 0u64;
+    let mut unspecified = 0u64;
+    let mut samples: Vec<serde_json::Value> = Vec::new();
+    let mut labels: BTreeMap<String, u64> = BTreeMap::new();
+    let mut parts: Vec<serde_json::Value> = Vec::new();
+    let mut rule = String::new();
+    let mut assumptions = serde_json::json!([]);
+    if let Ok(rd) = std::fs::read_dir(&dir) {
+        let mut files: Vec<PathBuf> = rd.filter_map(|e| e.ok()).map(|e| e.path()).filter(|p| p.file_name().map(|n| n.to_string_lossy().starts_with(&format!("{}-", id))).unwrap_or(false)).collect();
+        files.sort();
+        for f in files {
+            if let Some(doc) = std::fs::read_to_string(&f).ok().and_then(|t| serde_json::from_str::<serde_json::Value>(&t).ok()) {
+                let c = &doc["coverage"];
+                evaluations += c["evaluations"].as_u64().unwrap_or(0);
+                nontrivial += c["distinct_nontrivial"].as_u64().unwrap_or(0);
+                inner += c["inner_evaluations"].as_u64().unwrap_or(0);
+                unspecified += c["unspecified_skipped"].as_u64().unwrap_or(0);
+                if let Some(s) = c["samples"].as_array() {
+                    samples.extend(s.iter().take(1).cloned());
+                }
+                if let Some(l) = c["labels"].as_object() {
+                    for (k, v) in l {
+                        *labels.entry(k.clone()).or_insert(0) += v.as_u64().unwrap_or(0);
+                    }
+                }
+                rule = c["rule"].as_str().unwrap_or("").to_string();
+                assumptions = doc["assumptions"].clone();
+                parts.push(serde_json::json!({"part": f.file_name().map(|n| n.to_string_lossy().to_string()), "evaluations": c["evaluations"], "distinct_nontrivial": c["distinct_nontrivial"], "wall_s": doc["wall_s"], "violations": doc["violations"]}));
+            }
+            let _ = std::fs::remove_file(&f);
+        }
+    }
+    let doc = serde_json::json!({
+        "property_id": id,
+        "tier": tier.name(),
+        "seed": env_seed() as i64,
+        "level": "exploration",
+        "coverage": {
+            "evaluations": evaluations,
+            "distinct_nontrivial": nontrivial,
+            "rule": rule,
+            "samples": samples,
+            "inner_evaluations": inner,
+            "labels": labels,
+            "unspecified_skipped": unspecified,
+            "parts": parts,
+            "note": "distinct_nontrivial is the sum over the per-zone processes (the same case under another TZ is a different execution)",
+        },
+        "assumptions": assumptions,
+        "wall_s": (wall * 100.0).round() / 100.0,
+        "violations": if violated { 1 } else { 0 },
+    });
+    // a crash judged by the supervisor has already written its own evidence
+    if !(violated && parts.is_empty()) {
+        let _ = std::fs::write(Path::new(VERIF_DIR).join("evidence").join(format!("{}.json", id)), serde_json::to_string_pretty(&doc).unwrap());
+    }
 }
